@@ -9,8 +9,7 @@
      A == B          same batch shape, same matrix size, same entries (at every in-range position)
      okrhs D X       X is a right-hand side torch.matmul accepts for D: nr X = nc D and the batch shapes broadcast
      wf e            the constructor arguments are what the constructors accept (shapes fit)
-     covered e       every node of e is a class whose code is transcribed and proved (Covered.v lists the rest) and
-                     is not one of the two defective cells refuted below *)
+     covered e       every node of e is a class whose code is transcribed and proved (Covered.v lists the rest) *)
 From Coq Require Import List ZArith Lia Bool Arith.
 Import ListNotations.
 Require Import C01.Sums C01.Batch C01.Tensor C01.OpExpr C01.Model C01.Covered.
@@ -177,18 +176,6 @@ Qed.
 Theorem C01_broadcast_shapes : forall a b r, torch_broadcast_shapes a b = Some r <-> torch_rule a b r.
 Proof. exact torch_broadcast_shapes_correct. Qed.
 
-(* ---- the two cells excluded from [covered] are genuinely false on the transcribed code ------------ *)
-
-(* CholLinearOperator(R, upper=True): _matmul computes R R^T X, the documented meaning is R^T R *)
-Theorem C01_chol_upper_refuted : exists A X,
-  wf (Chol A true) /\ okrhs (denote (Chol A true)) X /\ ~ (mm false (Chol A true) X == dmm (denote (Chol A true)) X).
-Proof. exact chol_upper_refuted. Qed.
-
-(* ZeroLinearOperator with a batch shape: _matmul drops the operator's batch shape *)
-Theorem C01_zero_batch_refuted : exists b m n X,
-  wf (Zero b m n) /\ okrhs (denote (Zero b m n)) X /\ ~ (mm false (Zero b m n) X == dmm (denote (Zero b m n)) X).
-Proof. exact zero_batch_refuted. Qed.
-
 (* ---- non-vacuity ------------------------------------------------------------------------------------ *)
 
 (* a nested, batched expression inside [covered] with a legal broadcasting right-hand side *)
@@ -224,3 +211,12 @@ Example C01_nonvacuous_batch_repeat_rect :
   let X := of_table [3%nat] 3 1 [[[1]; [0]; [0]]; [[0]; [1]; [0]]; [[0]; [0]; [1]]] in
   wf e /\ covered e /\ okrhs (denote e) X /\ nr (denote e) <> nc (denote e).
 Proof. vm_compute. repeat split. discriminate. Qed.
+
+(* the two cells that were excluded (and refuted) on the originally pinned tree - an upper-orientation Cholesky operator and a
+   batched Zero operator - are inside [covered] on the repaired code *)
+Example C01_nonvacuous_chol_upper_zero_batch :
+  let e := Sum [Chol (of_table [] 2 2 [[[1; 2]; [0; 3]]]) true;
+                Matmul (Dense (of_table [2%nat] 2 3 [[[1;0;2];[0;1;1]]; [[1;1;1];[2;0;1]]])) (Zero [2%nat] 3 2)] in
+  let X := of_table [] 2 1 [[[1]; [1]]] in
+  wf e /\ covered e /\ okrhs (denote e) X.
+Proof. vm_compute. repeat split. Qed.
